@@ -97,7 +97,7 @@ class GradCheckFunctional:
     symbolic = False
     n_bounded = {"quick": 1, "thorough": 5}
 
-    OPS = ("grid_sample-data", "grid_sample-coords", "warp_image", "sample_image", "expv", "compose_flows", "evaluate_cubic_bspline", "spatial_derivatives",
+    OPS = ("grid_sample-data", "grid_sample-coords", "grid_sample-coords-constant-padding", "sample_image-constant-padding", "warp_image", "sample_image", "expv", "compose_flows", "evaluate_cubic_bspline", "spatial_derivatives",
            "jacobian_det", "affine_flow", "euler_rotation_matrix", "quaternion_to_rotation_matrix", "grid.apply_transform", "homogeneous_transform")
 
     def cases(self, tier):
@@ -125,6 +125,15 @@ class GradCheckFunctional:
             directional_check(K, op, lambda x: U.grid_sample(x, coords), [img], dt)
         elif op == "grid_sample-coords":
             directional_check(K, op, lambda c: U.grid_sample(img, c), [coords], dt)
+        elif op == "grid_sample-coords-constant-padding":
+            # sampling points partly outside the image domain with a scalar padding value: the blend with the constant
+            # depends on the coordinates too
+            wide = (base * 1.12 + 0.013).contiguous()
+            directional_check(K, op, lambda c: U.grid_sample(img, c, padding=1.5), [wide], dt)
+            directional_check(K, op + "[data]", lambda x: U.grid_sample(x, wide, padding=1.5), [img], dt)
+        elif op == "sample_image-constant-padding":
+            pts = (torch.rand((1, 9, D), generator=gen, dtype=dt) - 0.5) * 2.3
+            directional_check(K, op, lambda x, p: U.sample_image(x, p, padding=-0.75), [img, pts], dt)
         elif op == "warp_image":
             directional_check(K, op, lambda x, u: U.warp_image(x, coords, flow=u.movedim(1, -1) * 0.3), [img, flow], dt)
         elif op == "sample_image":
@@ -205,6 +214,12 @@ class GradCheckLosses:
             elif name == "wlcc_loss":
                 m = torch.rand((2, 1) + shape, generator=gen, dtype=dt) * 0.5 + 0.5
                 directional_check(K, name, lambda x, y: fn(x, y, mask=m, source_mask=m, **kw), [a, b], dt)
+                # a foreground mask with background regions larger than the window (windows without any weight)
+                fg = torch.zeros((2, 1) + shape, dtype=dt)
+                fg[(slice(None), slice(None)) + tuple(slice(0, n // 2) for n in shape)] = 1
+                directional_check(K, name + "[foreground mask]", lambda x, y: fn(x, y, mask=fg, **kw), [a, b], dt)
+                directional_check(K, name + "[source and target masks]", lambda x, y: fn(x, y, source_mask=fg, target_mask=fg, **kw), [a, b], dt)
+                directional_check(K, name + "[no mask]", lambda x, y: fn(x, y, **kw), [a, b], dt)
             else:
                 directional_check(K, name, lambda x, y: fn(x, y, **kw), [a, b], dt)
         elif name in ("dice_loss", "tversky_loss"):
